@@ -51,13 +51,50 @@ def cases(tier, seed):
         cs.append({'gen': 'breakpoints', 'kind': kind, 'N': Ng if kind.startswith('gauge') else [rng.choice((2, 3, 4)) for _ in range(d)],
                    'M': ([1] * d if kind.startswith('gauge') else [rng.choice((1, 2)) for _ in range(d)]) if ttm else None,
                    'dtype': ['f64', 'c128', 'f64', 'f32'][i % 4], 'rmax': 'none', 'grid': 20 if not T else 40})
+    # directed: a right bond of rank r whose r-1 small weights all stay above the threshold, next to a bond carrying one mid-size component: the decision at the
+    # left bond is only right if the weights of the right bond have been carried over (they shift that component from b/sqrt(r) to b relative to the norm)
+    for i in range(24 if not T else 300):
+        cs.append({'gen': 'breakpoints', 'kind': 'tail', 'N': [0, 0, 0] if i % 3 else [2, 0, 0, 0], 'M': None if i % 4 != 3 else 'ones', 'dtype': ['f64', 'c128', 'f64', 'f32'][i % 4],
+                   'rmax': 'none', 'grid': 20 if not T else 40, 'r': rng.randint(5, 12)})
     return cs
+
+
+def build_tail(case, g, dt):
+    import torchtt
+    rr = random.Random(case['seed'])
+    r = case['r']
+    lead = [n for n in case['N'] if n]
+    n0, n1, n2 = r + 1 + rr.randint(0, 2), rr.choice((2, 3)), r + rr.randint(0, 2)
+    up = dn.up(dt)
+    U, Gm, W = gens.orth(n0, g, up), gens.orth(n1, g, up), gens.orth(n2, g, up)
+    h = gens.orth(n1, g, up)[:, 0]
+    delta = 10.0 ** rr.uniform(-3, -1.5) if dt != torch.float32 else 10.0 ** rr.uniform(-2, -1.3)
+    b = delta * rr.uniform(0.8, 2.5)
+    c0 = torch.zeros((1, n0, r + 1), dtype=up)
+    c0[0] = U[:, :r + 1]
+    c1 = torch.zeros((r + 1, n1, r), dtype=up)
+    c1[0, :, 0] = Gm[:, 0]
+    c1[1, :, 0] = b * Gm[:, 1]
+    for k in range(1, r):
+        c1[k + 1, :, k] = delta * h
+    c2 = torch.zeros((r, n2, 1), dtype=up)
+    c2[:, :, 0] = W[:, :r].T
+    cores = [c0, c1, c2]
+    for n in lead:      # a leading rank-1 mode: the lossy bond becomes interior
+        v = gens.orth(n, g, up)[:, 0].reshape(1, n, 1)
+        cores = [v] + cores
+    cores = _gauge([c.to(dt) for c in cores], g, dt, cond=30.0)
+    if case['M'] == 'ones':
+        cores = [c.reshape(c.shape[0], 1, c.shape[1], c.shape[2]) for c in cores]
+    return torchtt.TT(cores)
 
 
 def build(case, ctx, g):
     """Build the operand (through the monitors when library operations are used to construct it)."""
     import torchtt
     dt = dn.dtype_of(case['dtype'])
+    if case['kind'] == 'tail':
+        return build_tail(case, g, dt)
     N, M, kind = case['N'], case['M'], case['kind']
     d = len(N)
     rr = random.Random(case['seed'])
